@@ -8,6 +8,7 @@ import numpy as np
 
 from rv import core, monitors
 
+ANCHORS = ['fit_beads_autofluorescence']      # functions the property is anchored in: never entered => inconclusive
 LEVEL = 'exploration'
 LEVEL_TEXT = 'Contract on the real fit: structural identities judged for every fit with positive slope (direct, C02 and Excel workloads) and recovery within 5% on exactly generated bead sets over a lattice + random draws of (m, b, autofluorescence, ladder). Exploration.'
 TECHNIQUE = 'runtime contract on the bead-model fit (structural identities) + recovery oracle on exactly generated bead sets'
